@@ -11,10 +11,10 @@ the generated table is a proof about that table.  What makes the checker itself 
 in `Lemmas/C20Validate.lean` (`validate` accepts exactly the well-typed trees, rejects unknown keys, …) and restated
 here.
 
-Pending findings on the current tree (the model mirrors the code; the oracle reports them with replays):
-the four files of `pendingPaths` are rejected — by the real code and by the model alike.  The full statement
-  `∀ c ∈ configs, checkConfig tables c.2 = .ok ()`
-is what `all_shipped_configs_ok_partial` becomes once `pendingPaths = []`.
+The findings of the pinned tree (stale key `cwn_conv`, non-existent JSSL engine names, toy inference masking name left
+MISSING, `NormUnetModel2dConfig` without `@dataclass`, `ResNetConfig.image_init`) are repaired in /repo; the statements
+below are at full strength (no file, no class excluded).  The `…_pinned_violates` theorems keep the old defects as
+witnesses on literal fragments.
 -/
 namespace DirectVerif.C20
 open DirectVerif DirectVerif.Config DirectVerif.Gen.C20
@@ -25,20 +25,6 @@ def ofString (s : String) : Str := s.toList.map Char.toNat
 /-- interned id of a string (`symbols.length`, an id no key or value of any tree has, when the string is not interned) -/
 def symOf (s : String) : Sym := tables.symbols.idxOf (pack (ofString s))
 def pathOf (c : Sym × Val) : PStr := tables.symbols.getD c.1 0
-
-/-- shipped files with a finding that is visible to the model (see the module docstring) -/
-def pendingPaths : List String := [
-  "projects/CMRxRecon/configs/base_vsharp_2D_dynamic_recon.yaml",   -- stale key `cwn_conv` in a UnetModel2d block
-  "projects/JSSL/configs/unet_jssl.yaml",                           -- engine_name UNetJSSLEngine does not exist
-  "projects/JSSL/configs/unet_ssl.yaml",                            -- engine_name UNetSSLEngine does not exist
-  "projects/toy/base.yaml"]                                         -- inference masking name left MISSING
-/-- the same paths packed (numerals, so that the kernel does not re-pack strings for every file) -/
-def pending : List PStr := [
-  1022324084241395205230802524141896349690194227771402770638275597079721404153811113030670060407350979279093427926924636816563836627699279238820988405085333012762699476176909544242748591601311927680279748748557007061371242827433995369917222874830755474191869688274743425054368556590135404032404473888649012974825221074254111934855641341267295250897058587036203536799770303529072,
-  19519593876440446133593310543659112774492976667416235767977504138640246033259773555086341121267997493654850544308682118285854027455236253221142059016216958457055850383810734181225247105171197672375662531390434669253607030896,
-  9307667673320982996746688148335987460371483167369952418443320856272870995921515196390724684541325256972486429748042769698822512097386051467789553650430753350036960669384678741979739899090334063057610475677054702452848,
-  613270468762235603064124091909210525090433894545349483898396071134050654009731576286562676372054576117241928027168468022711266152808560]
-theorem pending_eq : pending = pendingPaths.map fun s => pack (ofString s) := by decide +kernel
 
 /-! ## the translator saw the whole tree -/
 
@@ -51,46 +37,35 @@ theorem schema_complete : unsupportedTypes = [] := by decide
 
 /-! ## shipped configurations -/
 
-theorem configs_checked_partial :
-    (configs.all fun c => pending.contains (pathOf c) || configOk tables c.2) = true := by decide +kernel
+theorem configs_checked : (configs.all fun c => configOk tables c.2) = true := by decide +kernel
 
-/-- **Every shipped configuration (but the pending ones) passes the whole pipeline of the model**: its model blocks
-name importable classes with config classes, merge into them and into the typed `DefaultConfig` without unknown or
-ill-typed keys, its operators and its engine resolve, and every dataset block names a masking function and only
-transform keys that `build_mri_transforms` takes. -/
-theorem all_shipped_configs_ok_partial :
-    ∀ c ∈ configs, pathOf c ∉ pending → checkConfig tables c.2 = .ok () := by
-  intro c hc hp
-  have h := List.all_eq_true.mp configs_checked_partial c hc
-  have hp' : pending.contains (pathOf c) = false := by
-    simpa using hp
-  rw [hp', Bool.false_or] at h
-  exact configOk_iff.mp h
+/-- **Every shipped configuration passes the whole pipeline of the model**: its model blocks name importable classes
+with config classes, merge into them and into the typed `DefaultConfig` without unknown or ill-typed keys, its
+operators and its engine resolve, and every dataset block names a masking function and only transform keys that
+`build_mri_transforms` takes. -/
+theorem all_shipped_configs_ok : ∀ c ∈ configs, checkConfig tables c.2 = .ok () := fun c hc =>
+  configOk_iff.mp (List.all_eq_true.mp configs_checked c hc)
 
-/-- merge stage: the typed schema accepts the file -/
-theorem all_shipped_configs_validate_partial :
-    ∀ c ∈ configs, pathOf c ∉ pending → mergeCheck tables c.2 = .ok () := fun c hc hp =>
-  (checkConfig_ok_iff.mp (all_shipped_configs_ok_partial c hc hp)).1
+/-- merge stage: the typed schema accepts every file -/
+theorem all_shipped_configs_validate : ∀ c ∈ configs, mergeCheck tables c.2 = .ok () := fun c hc =>
+  (checkConfig_ok_iff.mp (all_shipped_configs_ok c hc)).1
 
 /-- name resolution: forward / backward operator and engine class exist (model and config classes, dataset config
 classes are part of the merge stage; masking functions of the block stage) -/
-theorem all_names_resolve_partial :
-    ∀ c ∈ configs, pathOf c ∉ pending →
-      operatorsCheck tables c.2 = .ok () ∧ engineCheck tables c.2 = .ok () := fun c hc hp =>
-  let h := checkConfig_ok_iff.mp (all_shipped_configs_ok_partial c hc hp)
+theorem all_names_resolve :
+    ∀ c ∈ configs, operatorsCheck tables c.2 = .ok () ∧ engineCheck tables c.2 = .ok () := fun c hc =>
+  let h := checkConfig_ok_iff.mp (all_shipped_configs_ok c hc)
   ⟨h.2.1, h.2.2.1⟩
 
 /-- dataset blocks: masking function named, resolvable, callable; transform keys accepted by the builder -/
-theorem all_blocks_accepted_partial :
-    ∀ c ∈ configs, pathOf c ∉ pending → blocksCheck tables c.2 = .ok () := fun c hc hp =>
-  (checkConfig_ok_iff.mp (all_shipped_configs_ok_partial c hc hp)).2.2.2
+theorem all_blocks_accepted : ∀ c ∈ configs, blocksCheck tables c.2 = .ok () := fun c hc =>
+  (checkConfig_ok_iff.mp (all_shipped_configs_ok c hc)).2.2.2
 
-/-- non-vacuity: the table is the 87 files (any number ≥ 1 would do), and most are not pending -/
+/-- non-vacuity: the table is the 87 files (any number ≥ 1 would do) -/
 example : configs.length = 87 := by decide
-example : ((configs.filter fun c => !pending.contains (pathOf c)).length ≥ 80) := by decide +kernel
-example : (configs.any fun c => !pending.contains (pathOf c) && configOk tables c.2) = true := by decide +kernel
+example : (configs.any fun c => configOk tables c.2) = true := by decide +kernel
 
-/-! ## witnesses of the pending findings (stated on literal fragments, so they survive the repair of the files) -/
+/-! ## witnesses of the repaired findings of the pinned tree (stated on literal fragments) -/
 
 /-- a `UnetModel2d` block with the stale key `cwn_conv` is rejected with `ConfigKeyError` -/
 theorem stale_key_pinned_violates :
@@ -141,18 +116,14 @@ example : schemas.length ≥ 40 := by decide +kernel
 on Python ≥ 3.11; such a tree makes `imports_ok` and `no_instance_defaults` false — modelled by the tables only -/
 example : (["direct/config/defaults.py:LoggingConfig.tensorboard"] : List String) ≠ [] := by decide
 
-/-- every model class can be called with the fields of its config class, and every parameter it insists on is a
-field (or an operator); the classes of `pendingInits` are the exception -/
-def pendingInitNames : List String := [
-  "NormUnetModel2dConfig",   -- declared without `@dataclass`: its annotated attributes are not fields
-  "ResNetConfig"]            -- field `image_init` is not a parameter of `ResNet.__init__`
-def pendingInits : List PStr := [
-  278891716129161797456994582163704636297445398905963316689374500827553792261848424973091685625895758689276927545846340047737978958,
-  355440109637772586867806439269075547844341594274789503077724284264644690]
-theorem pendingInits_eq : pendingInits = pendingInitNames.map fun s => pack (ofString s) := by decide +kernel
-theorem model_configs_accepted_partial :
-    ∀ e ∈ modelInits, e.1.2 ∉ pendingInits → modelInitOk tables e = true := by
-  decide +kernel
+/-- **every model class can be called with the fields of its config class, and every parameter it insists on is a
+field (or an operator)** -/
+theorem model_configs_accepted : ∀ e ∈ modelInits, modelInitOk tables e = true := by decide +kernel
+
+/-- config classes with annotated attributes are dataclasses (pinned tree: `NormUnetModel2dConfig` was not) -/
+theorem no_undecorated_configs : undecoratedConfigs = [] := by decide
+
+example : modelInits.length ≥ 15 := by decide +kernel
 
 /-! ## the checker is specified, not just run (proved in `Lemmas/C20Validate.lean`) -/
 
